@@ -342,6 +342,27 @@ def run_property(prop, tier, seed, args):
                             res, confirmed = res2, True
                             break
             handle_refutation(prop, r, ref, res, confirmed, known, baseline, violations, known_lines, undecided)
+        # obligations the solvers left open: the bounded native search may still find a failing input (it can only add
+        # a confirmed violation; the obligation stays undecided otherwise)
+        und_names = [k for k, o in r["obligations"].items() if o["verdict"] == "undecided"
+                     and not any(x["obligation"] == k for x in r["refutations"])]
+        if und_names:
+            try:
+                from pyvc import bounded
+
+                con_b = REGISTRY.contracts[r["qualname"]]
+                case_b = next((cs for cs in engine.cases_of(con_b) if cs is not None and cs[0] == r["case"]), None)
+                found = bounded.search(con_b, case_b, und_names, seed=seed)
+            except Exception:
+                found = None
+            if isinstance(found, tuple):
+                inputs_b, res_b, names_b, runs_b = found
+                for nm in names_b[:3]:
+                    undecided[:] = [u for u in undecided if u != (label, nm)]
+                    ref_b = {"obligation": nm, "case": r["case"], "inputs": inputs_b, "awaits": None,
+                             "goal": "(the solvers left this obligation undecided)",
+                             "model": f"failing input found by bounded native search after {runs_b} runs"}
+                    handle_refutation(prop, r, ref_b, res_b, True, known, baseline, violations, known_lines, undecided)
     if selftest_res is not None:
         for d in selftest_res["disagreements"]:
             errors.append(("engine self-test", d["function"], f"CPython: {d['cpython']}; engine: {d['engine']}; inputs {d['inputs']} ({d['mode']})"))
